@@ -6,18 +6,5 @@ git -C /repo apply /verif/seeded/$1/patch.diff || exit 1
 (cd harness && cargo build --release 2>&1 | grep -E "^error" -A5)
 ./harness/target/release/simrun gen --profile $2 --seed ${4:-101} --count $3 --out out/t/probe.ndjson 2>&1 | tail -1
 git -C /repo checkout -- .
-cd spec && JAVA_TOOL_OPTIONS="-Xss1g -Dtlc2.tool.queue.IStateQueue=StateDeque" TRACE=/verif/out/t/probe.ndjson tlc -workers 1 -metadir /verif/out/tlatest/mdp -cleanup -noGenerateSpecTE -config Trace.cfg Trace.tla 2>&1 | grep -E "VIOL|DRIFT" > /verif/out/t/probe.tlc
-python3 - <<'P'
-import re,collections
-lines=collections.Counter(); runs=collections.defaultdict(set)
-for l in open('/verif/out/t/probe.tlc'):
-    m=re.match(r'<<"(VIOLATION|DRIFT)", (.*), (\d+), (\d+), (\d+)>>',l.strip())
-    if not m: continue
-    kind,body,line,run,seq=m.groups()
-    names=re.findall(r'"([A-Za-z0-9_.]+)"',body)
-    if kind=="DRIFT": names=["DRIFT:"+names[0]]
-    for n in names:
-        lines[n]+=1; runs[n].add(run)
-for n,c in lines.most_common(12):
-    print("%6d lines %3d runs  %s"%(c,len(runs[n]),n))
-P
+cd spec && JAVA_TOOL_OPTIONS="-Xss1g -Dtlc2.tool.queue.IStateQueue=StateDeque" TRACE=/verif/out/t/probe.ndjson tlc -workers 1 -metadir /verif/out/tlatest/mdp -cleanup -noGenerateSpecTE -config Trace.cfg Trace.tla > /verif/out/t/probe.tlc 2>&1
+python3 /verif/tools/tlcsum.py /verif/out/t/probe.tlc
